@@ -33,3 +33,12 @@ Theorem C14_with_defaults_source_is_the_model : forall schema v pre meta plat de
    (v', pre', meta', dflt plat (B "linux"), dflt desc (B "no description given"))).
 Proof. intros. split; [exact with_defaults_translated | apply src_WithDefaults_is_model]. Qed.
 Print Assumptions C14_with_defaults_source_is_the_model.
+
+(* ---- archlinux: the statements of createPkginfo that compute pkgver, translated on every run (Gen/ArchPkgver.v) ---- *)
+From NfpmV Require Import Gen.ArchPkgver.
+(* Atoi of the release with 1 for anything that is not a number; with an epoch that parses as an unsigned 64-bit number,
+   epoch:version followed by the prerelease with "-" turned into "_"; otherwise version-pkgrel - the model's arch_version *)
+Theorem C14_arch_version_source_is_the_model :
+  src_arch_pkgver_translated = true /\ forall i arch, src_arch_pkgver i arch = arch_version i.
+Proof. split; [reflexivity | exact src_arch_pkgver_is_model]. Qed.
+Print Assumptions C14_arch_version_source_is_the_model.
